@@ -42,12 +42,66 @@ Fixpoint spec_terms (facq : Q -> Q -> Q -> Q) (N : option Z) (t u : Q) (s : Q * 
   | _, _ => []
   end.
 
-(* the model's terms before the last-entry clamp, from an arbitrary machine state *)
+(* the model's terms before the last-entry clamp, from an arbitrary machine state; `seen` = a zero factor has
+   already occurred (the code's absorbing rule, terms[np.cumsum(factors == 0) > 0] = 0) *)
 Definition mu_out (N : option Z) (t : Q) (s : Q * Z) : Q := mu_at N t (fst s) (snd s).
-Definition model_terms (facX : Q -> Q -> Q -> Xq) (N : option Z) (t u : Q) (s : Q * Z) (acc : Xq)
+Definition model_terms_z (facX : Q -> Q -> Q -> Xq) (N : option Z) (t u : Q) (s : Q * Z) (seen : bool) (acc : Xq)
            (xs es : list Q) : list Xq :=
   let ms := mscan (mu_out N t) sj_step s xs in
-  map2 (override_entry u) ms (xcumprod acc (map3 facX xs es ms)).
+  let fs := map3 facX xs es ms in
+  map2 (override_entry u) ms (absorb xis_zero (Fin 0) seen fs (xcumprod acc fs)).
+Definition model_terms (facX : Q -> Q -> Q -> Xq) (N : option Z) (t u : Q) (s : Q * Z) (acc : Xq)
+           (xs es : list Q) : list Xq := model_terms_z facX N t u s false acc xs es.
+
+(* ---- the absorbing rule: structural facts, and invisibility on exact finite products ---- *)
+Lemma absorb_length hit v : forall fs ts seen, length ts = length fs -> length (absorb hit v seen fs ts) = length fs.
+Proof.
+  induction fs as [|f fr IH]; intros ts seen H; destruct ts as [|tm tr]; try reflexivity; try discriminate.
+  cbn [absorb length]. f_equal. apply IH. now inversion H.
+Qed.
+Lemma absorb_firstn hit v k : forall fs ts seen,
+  firstn k (absorb hit v seen fs ts) = absorb hit v seen (firstn k fs) (firstn k ts).
+Proof.
+  induction k as [|k IH]; intros fs ts seen; [reflexivity|].
+  destruct fs as [|f fr]; [reflexivity|]. destruct ts as [|tm tr]; [reflexivity|].
+  cbn [absorb firstn]. f_equal. apply IH.
+Qed.
+Lemma Qred_0_mul q : Qred (0 * q) = 0.
+Proof. destruct q as [n d]. reflexivity. Qed.
+Lemma Qred_mul_0 T q : Qeq_bool q 0 = true -> Qred (T * q) = 0.
+Proof.
+  intro H. apply Qeq_bool_iff in H. destruct q as [n d]. destruct T as [a b].
+  unfold Qeq in H. cbn [Qnum Qden] in H. assert (n = 0%Z) by lia. subst n.
+  unfold Qmult. cbn [Qnum Qden]. rewrite Z.mul_0_r. reflexivity.
+Qed.
+Lemma absorbed_zero seen T q : (seen = true -> T = 0) -> seen || Qeq_bool q 0 = true -> Qred (T * q) = 0.
+Proof.
+  intros Hs H. destruct seen; cbn [orb] in H.
+  - rewrite (Hs eq_refl). apply Qred_0_mul.
+  - now apply Qred_mul_0.
+Qed.
+Lemma absorbed_entry seen T q : (seen = true -> T = 0) ->
+  (if seen || Qeq_bool q 0 then Fin 0 else Fin (Qred (T * q))) = Fin (Qred (T * q)).
+Proof.
+  intro Hs. destruct (seen || Qeq_bool q 0) eqn:E; [|reflexivity].
+  now rewrite (absorbed_zero seen T q Hs E).
+Qed.
+(* on a product of finite factors carried exactly, setting the entries after a zero factor to 0 changes nothing *)
+Lemma absorb_zero_fin : forall (qs : list Q) (a : Q) (seen : bool),
+  (seen = true -> a = 0) ->
+  absorb xis_zero (Fin 0) seen (map Fin qs) (xcumprod (Fin a) (map Fin qs)) = xcumprod (Fin a) (map Fin qs).
+Proof.
+  induction qs as [|q r IH]; intros a seen Hs; [reflexivity|].
+  cbn [map xcumprod absorb xmul xred xis_zero].
+  assert (E : (if seen || Qeq_bool q 0 then Fin 0 else Fin (Qred (a * q))) = Fin (Qred (a * q))).
+  { destruct seen; cbn [orb].
+    - rewrite (Hs eq_refl), Qred_0_mul. reflexivity.
+    - destruct (Qeq_bool q 0) eqn:Eq; [rewrite (Qred_mul_0 a q Eq)|]; reflexivity. }
+  rewrite E. f_equal. apply IH. intro H.
+  destruct seen; cbn [orb] in H.
+  - rewrite (Hs eq_refl). apply Qred_0_mul.
+  - apply Qred_mul_0; auto.
+Qed.
 
 (* ------------------------------------------------------------------ *)
 Lemma Qabsb_0 : Qabsb 0 = 0. Proof. reflexivity. Qed.
@@ -154,16 +208,17 @@ Proof.
   apply Qle_bool_false in E1. apply Qle_bool_false in E2. auto.
 Qed.
 
-Theorem model_terms_spec xs : forall es s acc T md,
+Theorem model_terms_z_spec xs : forall es s seen acc T md,
   Forall (fun x => 0 <= x <= u) xs ->
   (match N with Some n => (snd s + Z.of_nat (length xs) - 1 <= n)%Z | None => True end) ->
   dead_inv N t u s md ->
   (md = Alive -> acc = Fin T) ->
-  model_terms facX N t u s acc xs es = spec_terms facq N t u s T md xs es.
+  (seen = true -> md = Alive -> T = 0) ->
+  model_terms_z facX N t u s seen acc xs es = spec_terms facq N t u s T md xs es.
 Proof.
-  induction xs as [|x xr IH]; intros es s acc T md Hx HN Hd Hacc; [reflexivity|].
+  induction xs as [|x xr IH]; intros es s seen acc T md Hx HN Hd Hacc Hseen; [reflexivity|].
   destruct es as [|e er]; [reflexivity|].
-  unfold model_terms. cbn [mscan map3 xcumprod map2 spec_terms].
+  unfold model_terms_z. cbn [mscan map3 xcumprod absorb map2 spec_terms].
   change (mu_out N t s) with (mu_at N t (fst s) (snd s)).
   set (m := mu_at N t (fst s) (snd s)).
   inversion Hx as [|x0 l0 Hx0 Hxr]; subst.
@@ -206,17 +261,33 @@ Proof.
   - (* the entry *)
     destruct md' eqn:Emd.
     + destruct (next_mode_alive m md Emd) as [Ea [H0 H1]]. subst md.
-      rewrite (Hacc eq_refl), (fac_fin x e m H0 H1). cbn [xmul xred].
+      rewrite (Hacc eq_refl), (fac_fin x e m H0 H1). cbn [xmul xred xis_zero].
+      rewrite (absorbed_entry seen T (facq x e m) (fun Hs => Hseen Hs eq_refl)).
       unfold T', next_T. apply override_alive; auto.
     + destruct (HdL eq_refl) as [Hm0 _]. rewrite (override_deadlow u m _ Hu Hm0). reflexivity.
     + destruct (HdH eq_refl) as [Hmu _]. rewrite (override_deadhigh u m _ Hu Hmu). reflexivity.
   - (* the rest *)
-    apply (IH er (sj_step s x) _ T' md'); auto.
+    apply (IH er (sj_step s x) _ _ T' md'); auto.
     + destruct N as [n|]; auto. unfold sj_step; cbn [snd]. cbn [length] in HN. rewrite Nat2Z.inj_succ in HN. lia.
     + destruct md' eqn:Emd; [exact I| apply HdL; auto | apply HdH; auto].
     + intro Emd. destruct (next_mode_alive m md Emd) as [Ea [H0 H1]]. subst md.
       rewrite (Hacc eq_refl), (fac_fin x e m H0 H1). cbn [xmul xred].
       unfold T', next_T. fold md'. rewrite Emd. reflexivity.
+    + intros Hs' Emd. destruct (next_mode_alive m md Emd) as [Ea [H0 H1]]. subst md.
+      rewrite (fac_fin x e m H0 H1) in Hs'. cbn [xis_zero] in Hs'.
+      unfold T', next_T. fold md'. rewrite Emd.
+      exact (absorbed_zero seen T (facq x e m) (fun Hs => Hseen Hs eq_refl) Hs').
+Qed.
+
+Theorem model_terms_spec xs : forall es s acc T md,
+  Forall (fun x => 0 <= x <= u) xs ->
+  (match N with Some n => (snd s + Z.of_nat (length xs) - 1 <= n)%Z | None => True end) ->
+  dead_inv N t u s md ->
+  (md = Alive -> acc = Fin T) ->
+  model_terms facX N t u s acc xs es = spec_terms facq N t u s T md xs es.
+Proof.
+  intros es s acc T md Hx HN Hd Hacc. unfold model_terms.
+  apply model_terms_z_spec; auto. discriminate.
 Qed.
 End Refine.
 
